@@ -206,7 +206,22 @@ def run_family(run, prop, tier, seed, family):
     big = [Config(c.numtype, c.byteorder, (65536 // c.dtype.itemsize,), 'native', 0, c.iterform) for c in configs[:26]]
     b = Binding(configs, big)
     props = [prop]
-    macros, res = tour.edge_tour(b, mg, props, ncfg, per_edge=(3 if thorough else 1), seed=seed)
+    select = None
+    if not thorough and family == 'meta' and prop != 'C13':
+        # quick tier: the metadata alphabet is walked exhaustively by C13; the other properties take a
+        # stratified sample of it (at most `cap` macro-edges per edge class)
+        cap = 12
+        allm = list(mg.all_macros())
+        rnd.shuffle(allm)
+        seen, keep = {}, set()
+        for m in allm:
+            c = edge_class(m, mg.rep[m.src])
+            if seen.get(c, 0) < cap:
+                seen[c] = seen.get(c, 0) + 1
+                keep.add(id(m))
+        select = lambda m: id(m) in keep
+        run.cov['metadata_edges_sampled_per_class'] = cap
+    macros, res = tour.edge_tour(b, mg, props, ncfg, per_edge=(3 if thorough else 1), seed=seed, select=select)
     n1 = report(run, prop, mg, macros, res, 'edge')
     run.add('edge_replays', n1)
     # paths: random walks from the initial states; thorough adds all short paths
@@ -245,7 +260,8 @@ def run_family(run, prop, tier, seed, family):
     n2 = report(run, prop, mg, None, pres, 'path')
     run.add('paths_replayed', n2)
     run.add('path_steps', sum(x.get('steps', 0) for x in pres))
-    if prop in ENV_PROPS and family in ENV_FAMILIES:
+    if prop in ENV_PROPS and family in ENV_FAMILIES and (thorough or not run.cov.get('ascii_locale_child')):
+        # (quick tier: once per check run - the first family of the Array side and of the ragged side)
         # the same paths in an interpreter whose default text encoding is ASCII (LC_ALL=C without UTF-8 mode):
         # nothing Darr writes or reads may depend on the locale of the process
         sub = paths[:(400 if thorough else 48)]
@@ -260,7 +276,7 @@ def run_family(run, prop, tier, seed, family):
         run.cov['ascii_locale_child'] = info
     run.add('traces_validated_against_impl', n1 + n2)
     run.add('configurations', len({tuple(sorted((k, str(v)) for k, v in x['cfg'].items())) for x in res if 'cfg' in x}))
-    run.cov['exhaustive_over_macro_edges'] = True
+    run.cov['exhaustive_over_macro_edges'] = run.cov.get('exhaustive_over_macro_edges', True) and select is None
     for x in res[:2]:
         run.sample({'edge': x.get('label'), 'config': x.get('cfg'), 'out': x.get('out')})
     for x in pres[:1]:
